@@ -195,8 +195,45 @@ def probe_term(kind, D, N, seed):
     return {"ok": bool(err <= 1e-9 * sc and outside == 0.0), "err": err, "scale": sc, "outside_band": outside}
 
 
+def probe_forced_variant(D, N, seed):
+    """the Kolmogorov (forced) nonlinear functions are the documented convective term — with the SAME scales, dealiasing
+    and band as the unforced class — plus a state-independent injection: with injection_scale = 0 they coincide with
+    the unforced class on every state, and the difference made by a non-zero injection does not depend on the state"""
+    import jax.numpy as jnp
+    from exponax import nonlin_fun as nf
+    from exponax import spectral as sp
+    rng = np.random.default_rng(seed)
+    L = float(rng.uniform(1, 6))
+    dop = sp.build_derivative_operator(D, L, N)
+    b, g, m = float(rng.uniform(0.3, 1.5)) * float(rng.choice([-1, 1])), float(rng.uniform(0.3, 1.5)), 1
+    if D == 2:
+        plain = nf.VorticityConvection2d(D, N, convection_scale=b, derivative_operator=dop, dealiasing_fraction=2 / 3)
+        mk = lambda gg: nf.VorticityConvection2dKolmogorov(D, N, convection_scale=b, injection_mode=m, injection_scale=gg,   # noqa: E731
+                                                           derivative_operator=dop, dealiasing_fraction=2 / 3)
+        C = 1
+    else:
+        plain = nf.ProjectedConvection3d(D, N, derivative_operator=dop, dealiasing_fraction=2 / 3)
+        mk = lambda gg: nf.ProjectedConvection3dKolmogorov(D, N, injection_mode=m, injection_scale=gg, derivative_operator=dop,   # noqa: E731
+                                                           dealiasing_fraction=2 / 3)
+        C = 3
+    u1 = sp.fft(jnp.asarray(rng.normal(size=(C,) + (N,) * D)))
+    u2 = sp.fft(jnp.asarray(rng.normal(size=(C,) + (N,) * D)))
+    p1 = np.asarray(plain(u1))
+    sc = float(np.max(np.abs(p1))) + 1e-300
+    res = {"unforced_limit": float(np.max(np.abs(np.asarray(mk(0.0)(u1)) - p1))) / sc,
+           "injection_state_independent": float(np.max(np.abs((np.asarray(mk(g)(u1)) - p1) - (np.asarray(mk(g)(u2)) - np.asarray(plain(u2)))))) / sc}
+    bad = {k: v for k, v in res.items() if not v <= 1e-10}
+    return {"ok": not bad, "bad": bad, "convection_scale": b, "L": L}
+
+
 def oracle(ctx, deep):
     fails = []
+    for D, N in ([(2, 6), (2, 7), (3, 5)] if not deep else [(2, n) for n in range(5, 12)] + [(3, 5), (3, 6)]):
+        r = probe_forced_variant(D, N, ctx.seed)
+        ctx.count(("oracle_forced_variant", D, N))
+        if not r["ok"]:
+            fails.append({"key": f"C03:forced-variant:D{D}", "what": f"Kolmogorov nonlinear function (D={D}, N={N}, convection scale {r['convection_scale']:.3f}) is not the unforced term plus a state-independent injection: {r['bad']}",
+                          "probe": "forced_variant", "args": {"D": D, "N": N, "seed": ctx.seed}, "observed": r})
     kinds = ["conv_c", "conv_nc", "conv_sc", "gradnorm", "poly", "cubic"]
     sizes = {1: [9, 12, 13, 15, 16, 18], 2: [6, 7, 9], 3: [6]} if not deep else {1: list(range(5, 30)), 2: list(range(5, 14)), 3: [5, 6, 7, 8]}
     for D in (1, 2, 3):
@@ -218,4 +255,4 @@ def oracle(ctx, deep):
 
 
 def replay(probe, args):
-    return probe_term(**args)
+    return {"term": probe_term, "forced_variant": probe_forced_variant}.get(probe, probe_term)(**args)
